@@ -7,12 +7,13 @@ from . import common as C
 
 PROP = "C07"
 PROPS_FILE = "theories/Props/C07.v"
-THEOREMS = ["c07_prelude_resets_first", "c07_history_free", "c07_unspecified_is_default", "c07_defaults"]
-GEN_FILES = ["ConfigGen.v"]
+THEOREMS = ["c07_prelude_resets_first", "c07_history_free", "c07_unspecified_is_default", "c07_defaults", "c07_no_hidden_state"]
+GEN_FILES = ["ConfigGen.v", "StateGen.v"]
 TRUSTED = ["Coq 8.16.1 kernel + vm_compute", "theorems closed under the global context",
            "translator harness/translate_more.gen_config (fail-closed): Config.config literal, Config.reset, the store operations of _analysis in order, _read_global_config's shape, and the absence of any other write to the store in odetoolbox/*.py",
            "correspondence harness (harness/c07.py): Config.config observed after every call of random histories vs Model/Config.after_history with the regenerated prelude (decided in Coq)",
-           "ASSUMED, validated by the probe only: the rest of analysis() reads no other mutable global state (the last call of every history is compared with the same call made first in a fresh interpreter)"]
+           "translator harness/translate_more.gen_state (fail-closed, syntactic): every assignment / del / mutating container-method call inside a function of odetoolbox/*.py whose target is a module-level name, Class.attr, cls.attr or a class-level self.attr[...], and every mutable default argument (writes through aliases, setattr, globals() or C extensions are NOT seen)",
+           "ASSUMED, validated by the probe only: state kept inside SymPy/NumPy (their caches) does not influence results (the last call of every history is compared with the same call made first in a fresh interpreter)"]
 ASSUMPTIONS = ["result comparison across PYTHONHASHSEED values is mathematical (partition + functions at fixed points), textual within one seed",
                "the documented defaults are config.py's literals (the manual's table lists 1E-9 for the accuracies, config.py 1E-6: recorded in DESIGN.md, not treated as a violation)"]
 
@@ -150,6 +151,32 @@ Definition mism (cases : list (list (call string) * list (list (string * option 
 """
 
 
+ALLOWED_WRITES_INFO = {("__init__.py", "_analysis", "Config.config"), ("__init__.py", "_read_global_config", "Config.config"), ("config.py", "Config.reset", "Config.config"),
+                       ("__init__.py", "_analysis", "__init__.py:_verif_trace"), ("plot_helper.py", "import_matplotlib", "plot_helper.py:_mpl"),
+                       ("plot_helper.py", "import_matplotlib", "plot_helper.py:_plt")}     # copy of Proofs/StateP.allowed_writes, for messages only (Coq decides)
+
+
+def state_inventory():
+    try:
+        from . import translate_more
+        defaults, writes = translate_more.scan_state()
+        return {"mutable_defaults": ["%s::%s(%s=...)" % d for d in defaults], "writes": len(writes),
+                "hidden_writes": ["%s::%s writes %s (%s)" % w for w in writes if w[:3] not in ALLOWED_WRITES_INFO]}
+    except Exception as e:   # noqa
+        return {"error": str(e)[:200]}
+
+
+def search(ctx, res):
+    """extended search when an obligation broke without a probe failure: more histories under other seeds"""
+    out = []
+    for k in (1, 2, 3):
+        r = run({"tier": "quick", "seed": ctx["seed"] * 10 + k, "prop": PROP, "in_search": True})
+        out += r["probe_failures"]
+        if out:
+            break
+    return out
+
+
 def run(ctx):
     import os
     rng = random.Random(ctx["seed"] * 6007 + 7)
@@ -237,7 +264,13 @@ def run(ctx):
                 probe_failures.append({"key": "result depends on hash randomisation: " + C.stable_hash(seed_tasks[i]["calls"]),
                                        "what": "PYTHONHASHSEED=0 vs %d: %s vs %s for %s" % (hs * 7919, json.dumps(mv0)[:300], json.dumps(mv)[:300], json.dumps(seed_tasks[i]["calls"][0])[:300]),
                                        "replay": {"calls": seed_tasks[i]["calls"], "hashseed": hs * 7919}})
+    inv = state_inventory()
+    dist["process_level_state_inventory"] = inv
+    if inv.get("hidden_writes") or inv.get("mutable_defaults") or inv.get("error"):
+        corr_errors.append("state inventory (Gen/StateGen.v, decided by Proofs/StateP.no_hidden_state): unexpected process-level state: %s" % json.dumps(inv))
     mism, errs = ([], [])
+    if ctx.get("in_search"):
+        coq = []
     if os.path.exists(os.path.join(C.COQ, "theories/Gen/ConfigGen.vo")):
         mism, errs = C.coq_eval_shards(PROP, HEADER, coq, per=30)
     else:
